@@ -218,6 +218,10 @@ Proof.
 Qed.
 
 (* ---- consequences of the invariant (every lemma takes E st and the invariant, used or not) *)
+Section WithP.
+Context {P : nat -> Prop}.
+Local Notation tinv := (tinvP P).
+
 Lemma subs_len : forall E st (H : tinv E st), length (t_subs st) <= nsets st.
 Proof.
   intros E st H.
@@ -602,6 +606,8 @@ Proof.
     destruct (w_nonempty _ _ H d (dom_to_dominant st 0 d Hd)) as [x Hx].
     apply (w_mem_ids _ _ H) in Hx. apply (m_ids _ _ H) in Hx. destruct Hx as [y [[]|[]]].
 Qed.
+
+End WithP.
 
 Print Assumptions q_asserts.
 Print Assumptions q_contains.
